@@ -6,9 +6,11 @@ package main
 import (
 	"flag"
 	"fmt"
+	"io"
 	"os"
 	"strings"
 
+	"github.com/goreleaser/nfpm/v2/deprecation"
 	"verif/harness/internal/model"
 	"verif/harness/internal/props"
 	"verif/harness/internal/report"
@@ -25,6 +27,7 @@ func main() {
 	repo := flag.String("repo", "/repo", "nfpm tree")
 	replay := flag.String("replay", "", "replay file to re-run")
 	flag.Parse()
+	deprecation.Noticer = io.Discard
 	fn, ok := props.Registry[*prop]
 	if !ok {
 		fmt.Fprintf(os.Stderr, "unknown property %q (have %s)\n", *prop, strings.Join(props.Names(), " "))
